@@ -791,8 +791,25 @@ func (i *biterator) SeekGE(item *kvitem) {
 	}
 }
 
+// SeekForPrev seeks to the last item less-than or equal to the key (as the other engines do).
 func (i *biterator) SeekForPrev(key []byte) {
-	i.SeekLT(&kvitem{key: key})
+	item := &kvitem{key: key}
+	i.reset()
+	if i.n == nil {
+		return
+	}
+	for {
+		pos, found := i.n.find(i.cmp, item)
+		i.pos = int16(pos)
+		if found {
+			return
+		}
+		if i.n.leaf {
+			i.Prev()
+			return
+		}
+		i.descend(i.n, i.pos)
+	}
 }
 
 // SeekLT seeks to the first item less-than the provided item.
